@@ -259,6 +259,19 @@ Definition summary_simple (kinds : list kind) : bool := negb (existsb is_list_ki
 Definition helper (kinds : list kind) (stale : list Z) (summ : list mrow) (cells : list cell) :=
   if summary_simple kinds then helper_simple kinds stale summ cells else helper_list kinds stale summ cells.
 
+(* The helper formula while Engine.is_triggered_by_table_action(summary table) holds (lookupOrAddDerived:
+   `if not record._row_id and not self._engine.is_triggered_by_table_action(self.table_id)`; list mode:
+   `if new_row_ids and not ...`): keys are looked up, nothing is added.  In this tree the condition is never
+   true while a helper cell is evaluated (_bring_mlookups_up_to_date only recomputes metadata lookups; the
+   harness counts the calls), so `helper` is the formula the engine runs; helper_guarded is what the guard
+   would do, and Summary_undo_proofs shows that undo does not depend on it. *)
+Definition helper_guarded (kinds : list kind) (stale : list Z) (summ : list mrow) (cells : list cell)
+  : list mrow * list Z :=
+  match row_keys kinds cells with
+  | None => (summ, stale)
+  | Some ks => (summ, found_ids summ ks)
+  end.
+
 (* ------------------------------------------------------------------ one _bring_all_up_to_date *)
 
 (* entry of the helper column's lookup map for a source record (nothing: the empty entry) *)
@@ -343,6 +356,20 @@ Fixpoint settle_trace (kinds : list kind) (prev : list (Z * list Z)) (src : list
       match rest with
       | [] => if forallb nonempty_group rows then Some rows else None
       | _ => settle_trace kinds hs src (auto_remove rows) rest
+      end
+  end.
+
+(* the same, also returning the entries of the helper column at the end (the state the next bundle starts from) *)
+Fixpoint settle_trace_st (kinds : list kind) (prev : list (Z * list Z)) (src : list srow) (summ : list mrow)
+  (dirties : list (list Z)) : option (list mrow * list (Z * list Z)) :=
+  match dirties with
+  | [] => None
+  | d :: rest =>
+      let '(s1, hs) := pass_d kinds d prev src summ in
+      let rows := with_groups s1 hs in
+      match rest with
+      | [] => if forallb nonempty_group rows then Some (s1, hs) else None
+      | _ => settle_trace_st kinds hs src (auto_remove rows) rest
       end
   end.
 
@@ -431,6 +458,44 @@ Definition check_case_full (c : (list kind * list (Z * list Z) * list round) * l
   | Some rows => orows_eqb rows expect
   | None => false
   end.
+
+(* ------------------------------------------------------------------ monitor of the hypothesis clean_valid
+
+   Summary_proofs.clean_valid (the entries of the records that the first round does not re-evaluate are what an
+   evaluation would give) as a boolean, evaluated by the harness on every recorded bundle
+   (Summary_inc_proofs.clean_validb_sound). *)
+Definition hspecb (kinds : list kind) (summ : list mrow) (cells : list cell) (h : list Z) : bool :=
+  match row_keys kinds cells with
+  | None => true
+  | Some ks =>
+      forallb (fun k => match first_match summ k with Some i => mem_z i h | None => false end) ks &&
+      forallb (fun i => existsb (fun k => match first_match summ k with Some j => Z.eqb i j | None => false end) ks) h
+  end.
+
+Definition clean_validb (kinds : list kind) (d : list Z) (prev : list (Z * list Z)) (src : list srow)
+  (summ : list mrow) : bool :=
+  forallb (fun r => mem_z (fst r) d || hspecb kinds summ (snd r) (entry prev (fst r))) src.
+
+Definition check_clean_valid (c : (list kind * list (Z * list Z) * list round) * list orow) : bool :=
+  let '(kinds, prev, rounds, _) := c in
+  match rounds with
+  | [] => true
+  | (o, src, start) :: _ => clean_validb kinds o prev src start
+  end.
+
+(* clean_valid at the start of EVERY recorded round (the entries are those the model has after the rounds
+   before) *)
+Fixpoint rounds_cv (kinds : list kind) (prev : list (Z * list Z)) (rounds : list round) : bool :=
+  match rounds with
+  | [] => true
+  | (o, src, start) :: rest =>
+      clean_validb kinds o prev src start &&
+      (let '(s1, hs) := pass_o kinds o prev src start in
+       match rest with [] => true | _ => rounds_cv kinds hs rest end)
+  end.
+
+Definition check_clean_valid_all (c : (list kind * list (Z * list Z) * list round) * list orow) : bool :=
+  let '(kinds, prev, rounds, _) := c in rounds_cv kinds prev rounds.
 
 (* ------------------------------------------------------------------ vocabulary of the statements *)
 
